@@ -9,6 +9,7 @@
 (*   Down / Up      the relay's UDP port closes / reopens                    *)
 (*   Refuse / Accept   the SOCKS5 server refuses / accepts UDP ASSOCIATE     *)
 (*   Stall / Resume    the client stops / resumes taking datagrams           *)
+(*   Hold / Release    the SOCKS5 server holds / releases its ASSOCIATE reply *)
 EXTENDS MCUdpMuxSocks, Json
 
 CONSTANT Depth
@@ -38,6 +39,8 @@ GenNext ==
           \/ RelayUp /\ sched' = Append(sched, O("Up", 0, 0))
           \/ SetRefuse(TRUE) /\ sched' = Append(sched, O("Refuse", 0, 0))
           \/ SetRefuse(FALSE) /\ sched' = Append(sched, O("Accept", 0, 0))
+          \/ SetHold(TRUE) /\ sched' = Append(sched, O("Hold", 0, 0))
+          \/ SetHold(FALSE) /\ sched' = Append(sched, O("Release", 0, 0))
           \/ SetStalled(TRUE) /\ sched' = Append(sched, O("Stall", 0, 0))
           \/ SetStalled(FALSE) /\ sched' = Append(sched, O("Resume", 0, 0))
        /\ UNCHANGED nap
